@@ -1,6 +1,7 @@
 package vanguard
 
 import (
+	"google.golang.org/protobuf/reflect/protoreflect"
 	"net/http"
 
 	"google.golang.org/genproto/googleapis/api/annotations"
@@ -269,7 +270,11 @@ func hC17Grammar() {
 // hC17Matrix: NewTranscoder refuses configurations it cannot serve and honours the ones it accepts.
 func hC17Matrix() {
 	svc := newFakeService("p.S")
-	m := svc.addMethod("Get", fkUnary, 0, false)
+	// request type: name, id (strings), tags (repeated string), sub (message with a string leaf and a repeated leaf)
+	subDesc := newFakeMsgDesc("p.Sub", &fakeField{name: "leaf", kind: protoreflect.StringKind}, &fakeField{name: "items", kind: protoreflect.StringKind, repeated: true})
+	reqDesc := newFakeMsgDesc("p.S.GetRequest", &fakeField{name: "name", kind: protoreflect.StringKind}, &fakeField{name: "id", kind: protoreflect.StringKind},
+		&fakeField{name: "tags", kind: protoreflect.StringKind, repeated: true}, &fakeField{name: "sub", kind: protoreflect.MessageKind, msg: subDesc})
+	m := svc.addMethodIn("Get", fkUnary, 0, false, reqDesc)
 	cfg := baseFakeConfig()
 	opts := []ServiceOption{WithTypeResolver(&fakeResolver{})}
 	protoOpt := WithTargetProtocols(ProtocolGRPC)
@@ -280,7 +285,7 @@ func hC17Matrix() {
 	services := []*Service{}
 	var lateBare *Service
 	wantErr := true
-	class := verifChoose("class", 18)
+	class := verifChoose("class", 22)
 	switch class {
 	case 0: // valid baseline
 		wantErr = false
@@ -333,6 +338,15 @@ func hC17Matrix() {
 			defer func() {}()
 			lateBare = bare // bare service after the one that has bindings
 		}
+	case 18: // variable naming a repeated field
+		topts = append(topts, WithRules(&annotations.HttpRule{Selector: "p.S.Get", Pattern: &annotations.HttpRule_Get{Get: "/v1/{tags}"}}))
+	case 19: // variable naming a repeated field inside a nested message
+		topts = append(topts, WithRules(&annotations.HttpRule{Selector: "p.S.Get", Pattern: &annotations.HttpRule_Get{Get: "/v1/{sub.items}"}}))
+	case 20: // variable naming a singular leaf inside a nested message: fine
+		topts = append(topts, WithRules(&annotations.HttpRule{Selector: "p.S.Get", Pattern: &annotations.HttpRule_Get{Get: "/v1/{sub.leaf}"}}))
+		wantErr = false
+	case 21: // variable path going through a repeated field
+		topts = append(topts, WithRules(&annotations.HttpRule{Selector: "p.S.Get", Pattern: &annotations.HttpRule_Get{Get: "/v1/{tags.x}"}}))
 	case 15: // invalid template / blank pattern
 		if verifChoose("blank", 2) == 1 {
 			topts = append(topts, WithRules(&annotations.HttpRule{Selector: "p.S.Get", Pattern: &annotations.HttpRule_Get{Get: ""}}))
